@@ -183,7 +183,13 @@ def run(ctx, res):
             res.prop_failures.append(Failure('property', d, 'exception escaped MainProgram.execute: %r' % pr.exception))
             continue
         first = pr.out.split('\n')[0]
-        st = stage or stage_of_ident(first) or 'DefPreSds'
+        # which stage reports a class of defect (parse or validation) is not part of the property: the model is run with the
+        # stage the observed identifier names; a class default is used only when the identifier is none of the three allowed
+        st = stage_of_ident(first) or stage or 'DefPreSds'
+        if stage == 'DefSymbols' and first == 'VALIDATION_ERROR':
+            st = 'DefSymbols'
+        if stage == 'DefActParse' and first == 'SYNTAX_ERROR':
+            st = 'DefActParse'
         ident = {'SYNTAX_ERROR': '(IdAccess ACC_SYNTAX_ERROR)' if st != 'DefActParse' else '(IdFull SYNTAX_ERROR)'}.get(first) or IDENT.get(first)
         if first == 'SYNTAX_ERROR' and stage is None and cls == 'act-phase syntax':
             st, ident = 'DefActParse', '(IdFull SYNTAX_ERROR)'
